@@ -881,12 +881,17 @@ _LIKELY = ["Language.isEmpty", "Likely.langFromParts", "Likely.maximize", "Likel
 _GLUE = ["Language.fromStr", "Script.fromStr", "Region.fromStr", "Variant.fromStr", "Script.asStr", "Region.asStr", "Variant.asStr", "Language.eqStr",
          "Script.eqStr", "Region.eqStr", "Variant.eqStr", "Variant.eqStr2", "Language.clear", "Language.tryFromOption", "LangId.fromStr", "LangId.eqStr",
          "ExtMap.fromStr", "Locale.fromStr", "Locale.ofLangId", "Locale.toLangId"]
-SRC_TIE = {"C01": _SUBTAGS + _EXT + _PARSE_LI + _PARSE_LOC + _OPS + _LIKELY + _GLUE,
-           "C06": _LIKELY, "C07": _LIKELY, "C08": _LIKELY, "C14": _LIKELY, "C20": _LIKELY, "C02": _SUBTAGS + _PARSE_LI, "C03": _SUBTAGS + _EXT + _PARSE_LI + _PARSE_LOC,
+# the integer forms of the subtags (`From<subtag> for u32 / u64 / Option<u64>`, `from_raw_unchecked`, `from_raw_parts_unchecked`) from their own
+# source text; the `.into()` / `from_raw_unchecked(..)` call sites of the cascade rest on these theorems (srctie.py demotes a caller otherwise)
+_RAW = ["Language.toRaw", "Language.toRawRef", "Script.toRaw", "Region.toRaw", "Variant.toRaw", "Variant.toRawRef", "Language.fromRaw", "Script.fromRaw",
+        "Region.fromRaw", "Variant.fromRaw", "LangId.fromRawParts", "Locale.fromRawParts"]
+SRC_TIE = {"C01": _SUBTAGS + _EXT + _PARSE_LI + _PARSE_LOC + _OPS + _LIKELY + _GLUE + _RAW,
+           "C06": _LIKELY + _RAW, "C07": _LIKELY + _RAW, "C08": _LIKELY + _RAW, "C14": _LIKELY + _RAW, "C20": _LIKELY + _RAW, "C18": _RAW,
+           "C16": _SUBTAGS + _PARSE_LI + _PARSE_LOC + _FMT + _RAW + ["Language.fromStr", "Script.fromStr", "Region.fromStr", "Variant.fromStr", "LangId.fromStr", "Locale.fromStr", "ExtMap.fromStr", "LangId.intoParts", "Locale.intoParts"], "C02": _SUBTAGS + _PARSE_LI, "C03": _SUBTAGS + _EXT + _PARSE_LI + _PARSE_LOC,
            "C04": _SUBTAGS + _EXT + _PARSE_LI + _PARSE_LOC + _FMT, "C05": _SUBTAGS + _EXT + _PARSE_LI + _PARSE_LOC + _FMT,
            "C09": _SUBTAGS + _EXT + _PARSE_LI + _PARSE_LOC, "C10": _SUBTAGS + _EXT + _OPS + _FMT + _PARSE_LOC + ["LangId.maximize", "LangId.minimize"], "C11": _MATCH + ["Locale.isMatch"], "C12": ["Language.asStr"] + _FMT + _OPS + _GLUE, "C19": _PARSE_LI + _FMT,
            "C13": _SUBTAGS + _PARSE_LI + _PARSE_LOC + ["Locale.ofLangId", "Locale.toLangId", "LangId.fromStr", "Locale.fromStr"],
-           "C15": _SUBTAGS + [g for g in _GLUE if g.split(".")[0] in ("Language", "Script", "Region", "Variant")], "C17": _SUBTAGS + _PARSE_LI + _FMT + _OPS}
+           "C15": _SUBTAGS + [g for g in _GLUE if g.split(".")[0] in ("Language", "Script", "Region", "Variant")], "C17": _SUBTAGS + _PARSE_LI + _FMT + _OPS + _RAW}
 
 
 PARSE_STREAMS = [("tokens", None), ("wf", None), ("near", None), ("raw", None)]
